@@ -169,6 +169,27 @@ def stepFails (s0 pre : State) (op : Op) (accepted panicked : Bool) (post : Stat
    | _ => []) ++
   (if Spec.C03.progressOk pre op accepted post then [] else ["refund-failed"])
 
+/-- the counter equalities relative to a restart state `s0` (a state re-imported from the module's own exported
+genesis keeps the recorded current supply but no longer holds the completed contracts it was counted from):
+open totals per direction as in `countersB`; the current supply moved, since `s0`, by exactly the transfers
+completed since.  For an `s0` that satisfies `countersB` this is `countersB`. -/
+def countersRelB (s0 s : State) : Bool :=
+  (denomsOf s ++ denomsOf s0).all fun d =>
+    (supOf s d).incoming == sumDir s .open .incoming d &&
+    (supOf s d).outgoing == sumDir s .open .outgoing d &&
+    (supOf s d).current + sumDir s .completed .outgoing d + sumDir s0 .completed .incoming d ==
+      sumDir s .completed .incoming d + (supOf s0 d).current + sumDir s0 .completed .outgoing d
+
+/-- the clauses evaluated on the observation of a re-imported state: escrow identity and open totals -/
+def restartFails (s : State) : List String :=
+  (if escrowEqB s then [] else ["escrow-eq"]) ++
+  (if countersRelB s s then [] else ["counters"])
+
+/-- `stepFails` for the steps after a restart: the absolute counter clause is replaced by the relative one -/
+def stepFailsAfterRestart (s0 pre : State) (op : Op) (accepted panicked : Bool) (post : State) : List String :=
+  ((stepFails s0 pre op accepted panicked post).filter (· != "counters")) ++
+  (if countersRelB s0 post then [] else ["counters"])
+
 /-- the clauses evaluated on the observation of a reset line -/
 def resetFails (s : State) : List String :=
   if escrowEqB s && countersB s && limitsB s then [] else ["reset-state"]
